@@ -399,6 +399,53 @@ func (w *World) localInScope(pos, name string) bool {
 	return false
 }
 
+// sameTypeInScope: both names resolve at pos and denote objects of identical type.
+func (w *World) sameTypeInScope(pos, a, b string) bool {
+	oa, ob := w.objectAt(pos, a), w.objectAt(pos, b)
+	if oa == nil || ob == nil {
+		return oa == ob
+	}
+	return types.Identical(oa.Type(), ob.Type())
+}
+
+func (w *World) objectAt(pos, name string) types.Object {
+	parts := strings.Split(pos, ":")
+	if len(parts) < 3 {
+		return nil
+	}
+	line, err1 := strconv.Atoi(parts[len(parts)-2])
+	col, err2 := strconv.Atoi(parts[len(parts)-1])
+	if err1 != nil || err2 != nil {
+		return nil
+	}
+	fname := filepath.Join(w.Dir, strings.Join(parts[:len(parts)-2], ":"))
+	var tf *token.File
+	w.Fset.Iterate(func(f *token.File) bool {
+		if f.Name() == fname {
+			tf = f
+			return false
+		}
+		return true
+	})
+	if tf == nil || line < 1 || line > tf.LineCount() {
+		return nil
+	}
+	p := tf.LineStart(line) + token.Pos(col-1)
+	for _, pkg := range w.All {
+		for _, f := range pkg.Syntax {
+			if f.Pos() <= p && p < f.End() && w.Fset.File(f.Pos()) == tf {
+				sc := pkg.Types.Scope().Innermost(p)
+				if sc == nil {
+					return nil
+				}
+				_, obj := sc.LookupParent(name, p)
+				return obj
+			}
+		}
+	}
+	return nil
+}
+
 func isFuncLocal(obj types.Object, pkg *types.Package) bool {
 	par := obj.Parent()
 	if par == nil || par == types.Universe || par == pkg.Scope() {
